@@ -1,4 +1,5 @@
 import CifModel.Lemmas.Walk
+import CifModel.Lemmas.WalkH
 /-
   Property C14 — cif_walk visits every element once and obeys navigation directives.
 
@@ -15,7 +16,7 @@ import CifModel.Lemmas.Walk
   keeps the counterexample as a statement about the pinned variant `walkLoopPinned`.
 -/
 namespace CifModel
-open Walk Spec.Traversal Lemmas.Walk
+open Walk Spec.Traversal Lemmas.Walk Lemmas.WalkH
 
 /-- the state after one more callback `e` -/
 def C14_push (w : W) (e : Ev) : W := { n := w.n + 1, log := e :: w.log }
@@ -285,5 +286,152 @@ example : (walk (fun k _ => if k = 5 then 7 else 0) C14_demo).2 = 7 := by decide
 example : (walk (fun k _ => if k = 4 then 1 else 0) C14_demo).2 = 1 ∧ (walk (fun k _ => if k = 4 then 1 else 0) C14_demo).1.length = 5 := by decide +kernel
 -- a packet-less loop: CIF_EMPTY_LOOP
 example : (walk allCont [.mk (a!"b") [] [{ category := none, names := [(a!"_a")], packets := [] }]]).2 = 36 := by decide +kernel
+
+-- ---- handles ----------------------------------------------------------------------------------------------------------------
+
+/-- **The walk with handles is the walk.**  `walkH` (Model/WalkH.lean) is cif_walk with the handle each callback is given; forgetting the
+    handles gives exactly the callbacks and the result of `walk`, for every CIF and every program — so every theorem above is a theorem
+    about the callbacks of `walkH`. -/
+theorem C14_handles_refine (p : Prog) (c : WCif) :
+    (walkH p c).1.map (·.1) = (walk p c).1 ∧ (walkH p c).2 = (walk p c).2 :=
+  walkH_erase p c
+
+/-- **Handles passed to callbacks are the elements announced.**  For every CIF and every handler program, every callback of the walk
+    is handed the handle of the element it announces, and that handle denotes this element in the CIF being walked (`Res`;
+    assumption of C14 and of cif.h: the handlers do not modify the CIF, so the CIF the handle is looked up in during the callback is
+    the CIF that is walked):
+    * block_start / block_end of code `b`: a container handle without parent (a path of length 1: `cif_container_assert_block`
+      answers CIF_OK) that denotes a container of the CIF with code `b`; frame_start / frame_end: a container handle WITH a parent
+      (CIF_ARGUMENT_ERROR) that denotes a container with that code — the `j`-th save frame of the container whose frames are being
+      walked;
+    * loop_start / loop_end: (container, position) of a loop of that container with the announced category and names;
+    * packet_start / packet_end: the packet at the iterator's position in the loop being walked, with the announced items;
+    * item: the item at that position of that packet, with the announced name and value. -/
+theorem C14_handles_are_elements (p : Prog) (c : WCif) : ∀ x ∈ (walkH p c).1, Res c x := by
+  intro x hx
+  have h := walkWH_res p c
+  unfold walkH at hx
+  exact h x (List.mem_reverse.mp hx)
+
+/-- **Queries through the handles answer as the elements announced.**  Consequences of `C14_handles_are_elements` for the queries a
+    handler can make through the handle it is given (and the `walk` executor makes inside every callback): for a container callback
+    announcing code `code` with handle `path`: `cif_container_get_code` gives `code`; `cif_container_assert_block` gives CIF_OK exactly
+    for block callbacks; the numbers of frames and loops listed are those of the container denoted; `cif_container_get_frame` with the
+    code of its first listed frame returns the handle of a frame with that code (a child path); `cif_container_get_item_loop` with the
+    first name of its first listed loop returns a loop handle of this container holding that name.  For a loop callback:
+    `cif_loop_get_category` / `cif_loop_get_names` give the announced category and names, and a pass over the packets through the
+    handle delivers as many packets as the loop denoted has.  For a packet / item callback: the handle names the loop being walked
+    (the handle passed to loop_start: same container path, same position), the packet is the one at the iterator's position in it,
+    and category / names asked through that loop handle during the callback are those of this loop. -/
+theorem C14_handle_queries (p : Prog) (c : WCif) :
+    (∀ e path, (e, Handle.cont path) ∈ (walkH p c).1 →
+      ∃ code ct, lookup c path = some ct ∧ ct.code = code ∧ qCode c path = some code
+        ∧ ((e = .blockStart code ∨ e = .blockEnd code) ∧ qAssertBlock path = OK
+            ∨ (e = .frameStart code ∨ e = .frameEnd code) ∧ qAssertBlock path = ARGUMENT_ERROR)
+        ∧ qNumFrames c path = some ct.frames.length ∧ qNumLoops c path = some ct.loops.length
+        ∧ (∀ f, ct.frames.head? = some f →
+            ∃ j, qGetFrame c path f.code = some (.cont (path ++ [j])) ∧ qCode c (path ++ [j]) = some f.code)
+        ∧ (∀ l nm, ct.loops.head? = some l → l.names.head? = some nm →
+            ∃ i l', qItemLoop c path nm = some (.loop path i) ∧ lookupLoop c path i = some l' ∧ nm ∈ l'.names))
+    ∧ (∀ e path i, (e, Handle.loop path i) ∈ (walkH p c).1 →
+      ∃ cat names l, (e = .loopStart cat names ∨ e = .loopEnd cat names)
+        ∧ qLoopCategory c path i = some cat ∧ qLoopNames c path i = some names
+        ∧ lookupLoop c path i = some l ∧ qLoopPackets c path i = some l.packets.length)
+    ∧ (∀ e path i j, (e, Handle.packet path i j) ∈ (walkH p c).1 →
+      ∃ l pk, lookupLoop c path i = some l ∧ l.packets[j]? = some pk ∧ (e = .pktStart pk ∨ e = .pktEnd pk)
+        ∧ qLoopCategory c path i = some l.category ∧ qLoopNames c path i = some l.names)
+    ∧ (∀ e path i j k, (e, Handle.item path i j k) ∈ (walkH p c).1 →
+      ∃ l pk nm v, lookupLoop c path i = some l ∧ l.packets[j]? = some pk ∧ pk[k]? = some (nm, v) ∧ e = .item nm v
+        ∧ qLoopCategory c path i = some l.category ∧ qLoopNames c path i = some l.names) := by
+  have hres := C14_handles_are_elements p c
+  refine ⟨?_, ?_, ?_, ?_⟩
+  · intro e path hmem
+    have hr := hres _ hmem
+    have key : ∀ code (ct : WCont), lookup c path = some ct → ct.code = code →
+        qCode c path = some code ∧ qNumFrames c path = some ct.frames.length ∧ qNumLoops c path = some ct.loops.length
+        ∧ (∀ f, ct.frames.head? = some f →
+            ∃ j, qGetFrame c path f.code = some (.cont (path ++ [j])) ∧ qCode c (path ++ [j]) = some f.code)
+        ∧ (∀ l nm, ct.loops.head? = some l → l.names.head? = some nm →
+            ∃ i l', qItemLoop c path nm = some (.loop path i) ∧ lookupLoop c path i = some l' ∧ nm ∈ l'.names) := by
+      intro code ct hct hcode
+      refine ⟨by simp [qCode, hct, hcode], by simp [qNumFrames, hct], by simp [qNumLoops, hct], ?_, ?_⟩
+      · intro f hf
+        cases hfr : ct.frames with
+        | nil => rw [hfr] at hf; simp at hf
+        | cons f0 fr =>
+          rw [hfr] at hf
+          simp only [List.head?_cons, Option.some.injEq] at hf
+          subst hf
+          refine ⟨0, ?_, ?_⟩
+          · simp [qGetFrame, hct, hfr, List.findIdx?_cons]
+          · simp [qCode, lookup_snoc path c ct 0 hct, hfr]
+      · intro l nm hl hnm
+        cases hlr : ct.loops with
+        | nil => rw [hlr] at hl; simp at hl
+        | cons l0 lr =>
+          rw [hlr] at hl
+          simp only [List.head?_cons, Option.some.injEq] at hl
+          subst hl
+          have hin : nm ∈ l0.names := by
+            cases hnn : l0.names with
+            | nil => rw [hnn] at hnm; simp at hnm
+            | cons a r => rw [hnn] at hnm; simp at hnm; simp [hnm]
+          refine ⟨0, l0, ?_, ?_, hin⟩
+          · have : l0.names.contains nm = true := by simpa using hin
+            simp [qItemLoop, hct, hlr, List.findIdx?_cons, hin]
+          · simp [lookupLoop, hct, hlr]
+    cases e with
+    | blockStart code =>
+      obtain ⟨hlen, ct, hct, hcode⟩ := hr
+      obtain ⟨k1, k2, k3, k4, k5⟩ := key code ct hct hcode
+      exact ⟨code, ct, hct, hcode, k1, Or.inl ⟨Or.inl rfl, by simp [qAssertBlock, hlen]⟩, k2, k3, k4, k5⟩
+    | blockEnd code =>
+      obtain ⟨hlen, ct, hct, hcode⟩ := hr
+      obtain ⟨k1, k2, k3, k4, k5⟩ := key code ct hct hcode
+      exact ⟨code, ct, hct, hcode, k1, Or.inl ⟨Or.inr rfl, by simp [qAssertBlock, hlen]⟩, k2, k3, k4, k5⟩
+    | frameStart code =>
+      obtain ⟨hlen, ct, hct, hcode⟩ := hr
+      obtain ⟨k1, k2, k3, k4, k5⟩ := key code ct hct hcode
+      exact ⟨code, ct, hct, hcode, k1, Or.inr ⟨Or.inl rfl, by simp [qAssertBlock, hlen]⟩, k2, k3, k4, k5⟩
+    | frameEnd code =>
+      obtain ⟨hlen, ct, hct, hcode⟩ := hr
+      obtain ⟨k1, k2, k3, k4, k5⟩ := key code ct hct hcode
+      exact ⟨code, ct, hct, hcode, k1, Or.inr ⟨Or.inr rfl, by simp [qAssertBlock, hlen]⟩, k2, k3, k4, k5⟩
+    | _ => exact absurd hr (by simp [Res])
+  · intro e path i hmem
+    have hr := hres _ hmem
+    cases e with
+    | loopStart cat names =>
+      obtain ⟨l, hl, h1, h2⟩ := hr
+      exact ⟨cat, names, l, Or.inl rfl, by simp [qLoopCategory, hl, h1], by simp [qLoopNames, hl, h2], hl, by simp [qLoopPackets, hl]⟩
+    | loopEnd cat names =>
+      obtain ⟨l, hl, h1, h2⟩ := hr
+      exact ⟨cat, names, l, Or.inr rfl, by simp [qLoopCategory, hl, h1], by simp [qLoopNames, hl, h2], hl, by simp [qLoopPackets, hl]⟩
+    | _ => exact absurd hr (by simp [Res])
+  · intro e path i j hmem
+    have hr := hres _ hmem
+    cases e with
+    | pktStart pk =>
+      obtain ⟨l, hl, h1⟩ := hr
+      exact ⟨l, pk, hl, h1, Or.inl rfl, by simp [qLoopCategory, hl], by simp [qLoopNames, hl]⟩
+    | pktEnd pk =>
+      obtain ⟨l, hl, h1⟩ := hr
+      exact ⟨l, pk, hl, h1, Or.inr rfl, by simp [qLoopCategory, hl], by simp [qLoopNames, hl]⟩
+    | _ => exact absurd hr (by simp [Res])
+  · intro e path i j k hmem
+    have hr := hres _ hmem
+    cases e with
+    | item nm v =>
+      obtain ⟨l, pk, hl, h1, h2⟩ := hr
+      exact ⟨l, pk, nm, v, hl, h1, h2, rfl, by simp [qLoopCategory, hl], by simp [qLoopNames, hl]⟩
+    | _ => exact absurd hr (by simp [Res])
+
+-- non-vacuity: the demo CIF delivers container, loop, packet and item handles; the frame's handle is the path [0, 0]
+example : ((walkH allCont C14_demo).1.map (·.2)).contains (.cont [0, 0]) = true
+    ∧ ((walkH allCont C14_demo).1.map (·.2)).contains (.loop [0] 0) = true
+    ∧ ((walkH allCont C14_demo).1.map (·.2)).contains (.item [0] 0 1 1) = true
+    ∧ (walkH allCont C14_demo).1.length = 23 := by decide +kernel
+example : qCode C14_demo [0, 0] = some (a!"f") ∧ qAssertBlock [0, 0] = ARGUMENT_ERROR ∧ qAssertBlock [1] = OK
+    ∧ qGetFrame C14_demo [0] (a!"f") = some (.cont [0, 0]) ∧ qItemLoop C14_demo [0] (a!"_b") = some (.loop [0] 0) := by decide +kernel
 
 end CifModel
